@@ -283,20 +283,24 @@ type framePair struct {
 	before, lo, hi *Term
 }
 
-var (
-	frameMu    sync.Mutex
-	framePairs = map[string]framePair{}
-)
+// frameReg is the per-function registry of array constants known to equal an earlier
+// array outside a window (fresh names are only unique within one function).
+type frameReg struct {
+	mu    sync.Mutex
+	pairs map[string]framePair
+}
+
+func newFrameReg() *frameReg { return &frameReg{pairs: map[string]framePair{}} }
 
 // registerFrame records that array constant nm equals `before` outside [lo,hi).
-func registerFrame(nm *Term, before, lo, hi *Term) {
-	frameMu.Lock()
-	framePairs[nm.Name] = framePair{before, lo, hi}
-	frameMu.Unlock()
+func (fc *FnCtx) registerFrame(nm *Term, before, lo, hi *Term) {
+	fc.frames.mu.Lock()
+	fc.frames.pairs[nm.Name] = framePair{before, lo, hi}
+	fc.frames.mu.Unlock()
 }
 
 // autoAxioms adds instances of the defining equations of V, P, p10 for the terms present.
-func autoAxioms(ts []*Term) []*Term {
+func autoAxioms(ts []*Term, fr *frameReg) []*Term {
 	var out []*Term
 	seen := map[string]bool{}
 	B := mkInt(specB)
@@ -340,10 +344,10 @@ func autoAxioms(ts []*Term) []*Term {
 				out = append(out, mkImp(mkLe(hi, lo), mkEq(u, mkI(0))))
 				// one word
 				out = append(out, mkImp(mkEq(hi, mkAdd(lo, mkI(1))), mkEq(u, mkSelect(m, lo))))
-				if m.Op == "const" {
-					frameMu.Lock()
-					fp, ok := framePairs[m.Name]
-					frameMu.Unlock()
+				if m.Op == "const" && fr != nil {
+					fr.mu.Lock()
+					fp, ok := fr.pairs[m.Name]
+					fr.mu.Unlock()
 					if ok {
 						// lemma V_eq with the frame of m as premise
 						before := mkV(fp.before, lo, hi)
@@ -662,7 +666,7 @@ func (d *Discharger) prepare(o *Obligation, getValues []*Term) (string, error) {
 	var asserts []*Term
 	asserts = append(asserts, q.Hyps...)
 	asserts = append(asserts, insts...)
-	ax := autoAxioms(asserts)
+	ax := autoAxioms(asserts, o.frames)
 	asserts = append(asserts, ax...)
 	t2 := time.Now()
 	txt := renderQuery(asserts, getValues)
